@@ -120,7 +120,7 @@ class Generator {
   void emit(std::vector<Op>& ops, const Op& o) { ops.push_back(o); shadow_.step_shadow(o); }
 
   int pick_fn() {
-    static const int w[NFN] = {10, 4, 5, 2, 2, 2, 3};
+    static const int w[NFN] = {10, 4, 5, 2, 2, 2, 3, 3};
     return rng_.pick(w, NFN);
   }
 
@@ -217,6 +217,7 @@ class Generator {
       case OP_REQ_DESTRUCTION: { Op o = mk(k, rng_.below(8), profile_ == PF_SEQ ? rng_.range(0, 2) : (rng_.chance(1, 3) ? rng_.range(1, 2) : 0)); o.a[7] = rng_.below(8); o.a[9] = rng_.below(4); return o; }
       case OP_MUTATE: return mk(k, rng_.below(12), rng_.below(8));
       case OP_PUSH_TRACER: return mk(k, rng_.below(2));
+      case OP_SET_REPORTER: return mk(k, rng_.below(2));
       case OP_NEW_WATCHED: return mk(k, 0, rng_.below(100));
       case OP_ABANDON: return mk(k, rng_.below(4));
       default: return mk(k, rng_.below(12));
